@@ -224,8 +224,10 @@ func (o *Obj) OpNames() []string {
 
 // Watchdog is how long a single call may take before it is recorded as a
 // self-deadlock ("Timeout").  A call on these in-memory structures takes
-// microseconds; the margin only has to beat scheduler stalls on a loaded box.
-var Watchdog = 3 * time.Second
+// microseconds; the margin only has to beat scheduler stalls on a loaded box
+// (a spurious Timeout does not reproduce when the runner re-generates the
+// history, which the runner reports as a machinery failure, never a violation).
+var Watchdog = 10 * time.Second
 
 // hung counts the calls of (type, operation) that did not return in this
 // process.  After two, the operation is not issued on that type any more (the
